@@ -71,7 +71,7 @@ void check_sketch(const hll_sketch& sk, const vf::HllModel& m, int lg_k, int typ
   double plb = est, pub = est;
   for (uint8_t sd = 1; sd <= 3; ++sd) {
     double lb = sk.get_lower_bound(sd), ub = sk.get_upper_bound(sd);
-    VF_CHECK(lb <= est && est <= ub, "bounds-order", who << ": lb " << lb << " est " << est << " ub " << ub << " at " << int(sd));
+    VF_CHECK(lb <= est * (1 + 1e-9) && est <= ub * (1 + 1e-9), "bounds-order", who << ": lb " << lb << " est " << est << " ub " << ub << " at " << int(sd));  // 1e-9: see c04
     VF_CHECK(lb <= plb && ub >= pub, "bounds-widen", who << ": interval does not widen at " << int(sd));
     plb = lb; pub = ub;
   }
